@@ -34,11 +34,11 @@ package parser
 //@   nopanic
 //@   requires ctx != nil && ctx.macros != nil && ctx.snippets != nil
 //@   modifies *
-//@   ensures ctx.macros != nil && ctx.snippets != nil
+//@   ensures ctx.macros != nil && ctx.snippets != nil && ctx.importedNodes == old(ctx.importedNodes)
 // ... and a node that is returned without error and is neither a macro definition nor a snippet has a well-formed name
 //@   ensures result1 == nil && !result0.Macro && !result0.Snippet ==> wellFormedName(result0.Name)
-//@   loop 0 invariant ctx.macros != nil && ctx.snippets != nil
-//@   loop 1 invariant ctx.macros != nil && ctx.snippets != nil
+//@   loop 0 invariant ctx.macros != nil && ctx.snippets != nil && ctx.importedNodes == old(ctx.importedNodes)
+//@   loop 1 invariant ctx.macros != nil && ctx.snippets != nil && ctx.importedNodes == old(ctx.importedNodes)
 //@ func (*parseContext).isSnippet
 //@   prop C20
 //@   nopanic
@@ -52,8 +52,8 @@ package parser
 //@   nopanic
 //@   requires ctx != nil && ctx.macros != nil && ctx.snippets != nil
 //@   modifies *
-//@   ensures ctx.macros != nil && ctx.snippets != nil
-//@   loop 0 invariant ctx.macros != nil && ctx.snippets != nil
+//@   ensures ctx.macros != nil && ctx.snippets != nil && ctx.importedNodes == old(ctx.importedNodes)
+//@   loop 0 invariant ctx.macros != nil && ctx.snippets != nil && ctx.importedNodes == old(ctx.importedNodes)
 //@ func readTree
 //@   prop C20
 //@   nopanic
@@ -62,19 +62,26 @@ package parser
 //@   prop C20
 //@   nopanic
 //@   modifies *
+// Import expansion is bounded in size, not only in depth: the number of nodes 'import' directives have added to the
+// tree is unchanged or at most maxImportedNodes (100000) on every path that does not end in an error (a snippet importing itself twice doubles
+// the tree on every pass - the parser ran out of memory; found by the bounded stand-in below, fixed).
 //@ func (*parseContext).expandImports
 //@   prop C20
 //@   nopanic
+//@   splitreturns
 //@   requires ctx != nil && ctx.macros != nil && ctx.snippets != nil
 //@   modifies *
 //@   ensures ctx.macros != nil && ctx.snippets != nil
-//@   loop 0 invariant ctx.macros != nil && ctx.snippets != nil
+//@   ensures result1 == nil ==> ctx.importedNodes <= 100000 || ctx.importedNodes == old(ctx.importedNodes)
+//@   loop 0 invariant ctx.macros != nil && ctx.snippets != nil && (ctx.importedNodes <= 100000 || ctx.importedNodes == old(ctx.importedNodes))
 //@ func (*parseContext).resolveImport
 //@   prop C20
 //@   nopanic
 //@   requires ctx != nil && ctx.macros != nil && ctx.snippets != nil
 //@   modifies *
 //@   ensures ctx.macros != nil && ctx.snippets != nil
+// (a file import is read with a context of its own: assumed not to touch this context's counter)
+//@   trusted-ensures ctx.importedNodes == old(ctx.importedNodes)
 //@   loop 0 invariant ctx.macros != nil && ctx.snippets != nil
 //@   loop 1 invariant ctx.macros != nil && ctx.snippets != nil
 //@ func (*parseContext).expandMacros
@@ -105,3 +112,4 @@ package parser
 //@ func NodeErr
 //@   prop C20
 //@   nopanic
+//@   ensures result != nil
